@@ -58,7 +58,7 @@ def miri_extra(prop, argv_seeds, miri_seeds):
 
 META["C03"] = {
     "title": "Sources and single-input operators compute their documented sequence",
-    "rule": "cases = (operator chain AST, input script). Enumerated: every single-input operator x every parameter in 0..n+1 / predicate family x every script over {0,1,2} up to length n (quick 3, thorough 5) x terminal {none,complete,error} x sources {Subject, create (sync and stashed-handle), from_iter}; every basic source alone and under every operator; plus seeded random chains of depth 2..5 with post-terminal events. A case is non-trivial when the reference model's expected output contains an item, or terminates although the input did not, or ends with an error; distinct = distinct hash of (AST, script).",
+    "rule": "cases = (operator chain AST, input script). Enumerated: every single-input operator x every parameter in 0..n+1 / predicate family x every script over {0,1,2} up to length n (quick 3, thorough 6) x terminal {none,complete,error} x sources {Subject, create (sync and stashed-handle), from_iter}; every basic source alone and under every operator; plus seeded random chains of depth 2..5 with post-terminal events. A case is non-trivial when the reference model's expected output contains an item, or terminates although the input did not, or ends with an error; distinct = distinct hash of (AST, script).",
     "assumptions": COMMON_ASSUME + [
         "reference list semantics are written from the doc comments in src/observable.rs; where they are silent (take(0) on an unterminated input) both behaviours are accepted",
         "buffer_with_count(0) and float `average` are exercised only in the typed static battery",
@@ -72,7 +72,7 @@ META["C03"] = {
 
 META["C04"] = {
     "title": "Multi-input combinators follow the interleaving of their inputs",
-    "rule": "cases = (operator, local|_threads form, script A, script B, interleaving). Enumerated: all pairs of scripts with 0..n uniquely numbered items (quick n=3, thorough n=4) and terminal {none, complete, error}, optionally followed by post-terminal events, x ALL interleavings of the two scripts, for merge, zip, combine_latest, with_latest_from, take_until, skip_until, sample, buffer in both forms, both inputs hot Subjects driven from one thread; plus each pair with one input cold (create emitting at subscription); plus seeded random timelines with up to 6 items per input. Non-trivial: both inputs contributed an event and the scripts were really interleaved (some B event precedes some A event); distinct = hash of (operator, form, timeline).",
+    "rule": "cases = (operator, local|_threads form, script A, script B, interleaving). Enumerated: all pairs of scripts with 0..n uniquely numbered items (quick n=3, thorough n=5) and terminal {none, complete, error}, optionally followed by post-terminal events, x ALL interleavings of the two scripts, for merge, zip, combine_latest, with_latest_from, take_until, skip_until, sample, buffer in both forms, both inputs hot Subjects driven from one thread; plus each pair with one input cold (create emitting at subscription); plus seeded random timelines with up to 6 items per input. Non-trivial: both inputs contributed an event and the scripts were really interleaved (some B event precedes some A event); distinct = hash of (operator, form, timeline).",
     "assumptions": COMMON_ASSUME + [
         "timeline reference model written from the property statement and operator docs; where they are silent the oracle accepts a set: zip/combine_latest may complete anywhere between 'no further output possible' and 'both inputs completed'; a skip_until notifier completing empty may or may not open the gate; after buffer's notifier completed either flush-and-complete or keep gathering; a take_until/skip_until notifier error may be ignored or propagated; sample may flush or drop an unsampled value when the source completes; buffer may emit or skip an empty buffer",
     ],
@@ -220,7 +220,7 @@ META["C16"] = {
     "level_note": "Trusted: virtual clock and arena executor accounting (live timers are exact: a dropped timer future unregisters itself).",
     "design_ref": "DESIGN.md §5 C16",
     "require": {"quick": {"middle_operators_covered": 45, "positions_covered": 9, "cutters_covered": 8}, "thorough": {"middle_operators_covered": 45, "positions_covered": 9}},
-    "watchdog_s": {"quick": 400, "thorough": 3600},
+    "watchdog_s": {"quick": 400, "thorough": 5400},
 }
 
 META["C19"] = {
